@@ -1171,6 +1171,12 @@ fn directed(ctx: &mut Ctx) {
         (3, 2, vec![0, 0, 2], vec![vec![2], vec![0, 1]]),
         (2, 1000, vec![3, 999], vec![vec![1], vec![0]]),
         (3, 200, vec![7, 7, 200], vec![vec![1, 0], vec![2]]),
+        // l = 13: element 4 straddles the words 0/1 of the lower bits (bits 52..65), element 5 lies
+        // in word 1: the straddling writer's second CAS races with its neighbour's write
+        (6, 49152, vec![8191, 16383, 24575, 32767, 40959, 49151], vec![vec![4], vec![5]]),
+        (6, 49152, vec![1, 8192, 16385, 24576, 40959, 49151], vec![vec![5, 3], vec![4]]),
+        // l = 40 (u = 3 * 2^40): element 1 straddles (bits 40..80), element 2 follows in word 1
+        (3, 3298534883328, vec![1099511627775, 2199023255551, 3298534883327], vec![vec![1], vec![2]]),
     ] {
         let mut case = Case { vecs: vec![VDecl::Ef { n, u }], progs: vec![], conflict: false };
         for p in parts {
